@@ -14,11 +14,25 @@ Ops == [kind : Kinds, grant : BOOLEAN, err : BOOLEAN, cls : {"success", "ignore"
         \* another code, or an error wrapping one: it supplies the message, never the code (never part of the answer)
         leerr : {"plain", "status", "wrapped"}]
 
-Init == n = 0
+\* chained interceptors: both layers built from the same options (with their own limiters)
+ChainCfgs == [custom : BOOLEAN, customle : BOOLEAN, named : {0}]
+ChainOps == [kind : Kinds, ogrant : BOOLEAN, grant : BOOLEAN, err : BOOLEAN, cls : {"success", "ignore", "dropped"},
+             lecode : {"Unavailable", "Aborted"}, ctx : {"live"}, leerr : {"plain", "status"}]
+
+Init == /\ n = 0
+        /\ \A c \in ChainCfgs, op \in ChainOps :
+             Emit => PrintT(<<"CHAIN", ToJson([cfg |-> c, op |-> op, exp |-> ChainG(c, op)])>>)
 Next == /\ n < 1
         /\ \E c \in Cfgs, op \in Ops :
              /\ n' = n + 1
              /\ Emit => PrintT(<<"CASE", ToJson([cfg |-> c, op |-> op, exp |-> ApplyG(c, op)])>>)
+
+(* a refusing outer layer leaves everything inside untouched; a granting one completes its own token last *)
+ChainGates == \A c \in ChainCfgs, op \in ChainOps :
+   LET r == ChainG(c, op) IN
+   /\ ~op.ogrant => (r.ran = 0 /\ Len(r.asked) = 1 /\ r.completed = <<>>)
+   /\ op.ogrant => (Len(r.asked) = 2 /\ r.completed[Len(r.completed)].lim = r.asked[1]
+                    /\ Len(r.completed) = (IF op.grant THEN 2 ELSE 1))
 
 (* consequences *)
 OnceOrNever == \A c \in Cfgs, op \in Ops :
